@@ -497,6 +497,12 @@ func (x *Exec) applyContract(st *State, fr *Frame, c *Contract, name string, sig
 	if c.External || (callee != nil && !x.isInTree(callee)) || (callee == nil && c.Pkg == "") {
 		x.used[c.Target] = true
 	}
+	if c.Flags["nocallbacks"] {
+		x.note("ASSUMED (flag nocallbacks): %s does not call logged functions of this module other than those its contract mentions", c.Target)
+	}
+	if c.Interface {
+		x.note("interface contract %s is an assumption about every implementation (no refinement obligations are generated)", c.Target)
+	}
 	env := x.bindParams(c, sig, callee, args)
 	if fnv != nil && callee != nil {
 		for i, fvar := range callee.FreeVars {
